@@ -412,23 +412,69 @@ Ltac sfind ::=
   | |- context [task_reschedule (wr ?S ?rp) ?t] => sapply (sim_task_reschedule t S rp)
   end.
 
+(* the lock half of propagate_task (everything after the reschedule of a runnable task) *)
+Definition prop_rest (fuel : nat) (s : st) (t : nat) : st :=
+  match twaiting (gett s t), fuel with
+  | Some l, S fuel =>
+      let lk := getl s l in
+      let s := match lowner lk with
+               | Some o => propagate_task fuel s o
+               | None => s end in
+      let p := effective_priority s t in
+      let lk := getl s l in
+      match find (fun pr => Nat.eqb (snd pr) t) (lwt lk) with
+      | Some (f, _) =>
+          match pq_reschedule HQ (lpq lk) (fun o => Nat.eqb (Z.to_nat o) f) p with
+          | Some (_, q') => setl s l (lk <| lpq := q' |>)
+          | None => s
+          end
+      | None => s
+      end
+  | _, _ => s
+  end.
+Lemma propagate_task_unf fuel s t :
+  propagate_task fuel s t =
+  if negb (is_prio_task s t) then s
+  else prop_rest fuel (if task_is_runnable s t then task_reschedule s t else s) t.
+Proof. destruct fuel; reflexivity. Qed.
+
+Lemma sim_prop_rest fuel :
+  (forall fuel', fuel = S fuel' -> forall t, SimS (fun s => propagate_task fuel' s t)) ->
+  forall t, SimS (fun s => prop_rest fuel s t).
+Proof.
+  intros IH t s rp R; remember (prop_rest _ s t) as s' eqn:E; unfold prop_rest in *.
+  destruct fuel as [|fuel]; [sgoS E|]. specialize (IH fuel eq_refl).
+  sprep E. snorm1.
+  destruct (twaiting (gett s t)) as [l|]; [|subst; sfin].
+  assert (H1 : exists rp1,
+    match lowner (getl s l) with Some o => propagate_task fuel (wr s rp) o | None => wr s rp end
+    = wr (match lowner (getl s l) with Some o => propagate_task fuel s o | None => s end) rp1
+    /\ Rel (match lowner (getl s l) with Some o => propagate_task fuel s o | None => s end) rp1).
+  { destruct (lowner (getl s l)) as [o|]; [exact (IH o s rp R)|]. exists rp; auto. }
+  destruct H1 as (rp1 & E1 & R1). rewrite E1.
+  set (s1 := match lowner (getl s l) with Some o => propagate_task fuel s o | None => s end) in *.
+  clearbody s1. sgoS E.
+Qed.
+
 Lemma sim_propagate_task fuel : forall t, SimS (fun s => propagate_task fuel s t).
 Proof.
-  induction fuel as [|fuel IH]; intros t s rp R; remember (propagate_task _ s t) as s' eqn:E;
-    cbn [propagate_task] in *.
-  - sgoS E.
-  - sprep E. snorm1.
-    destruct (negb (is_prio_task s t)); [subst; sfin|].
-    destruct (task_is_runnable s t); [sgoS E|].
-    destruct (twaiting (gett s t)) as [l|]; [|subst; sfin].
-    assert (H1 : exists rp1,
-      match lowner (getl s l) with Some o => propagate_task fuel (wr s rp) o | None => wr s rp end
-      = wr (match lowner (getl s l) with Some o => propagate_task fuel s o | None => s end) rp1
-      /\ Rel (match lowner (getl s l) with Some o => propagate_task fuel s o | None => s end) rp1).
-    { destruct (lowner (getl s l)) as [o|]; [exact (IH o s rp R)|]. exists rp; auto. }
-    destruct H1 as (rp1 & E1 & R1). rewrite E1.
-    set (s1 := match lowner (getl s l) with Some o => propagate_task fuel s o | None => s end) in *.
-    clearbody s1. sgoS E.
+  induction fuel as [|fuel IH]; intros t s rp R; rewrite !propagate_task_unf.
+  - snorm1. destruct (negb (is_prio_task s t)); [sfin|].
+    assert (H0 : exists rp0,
+      (if task_is_runnable s t then task_reschedule (wr s rp) t else wr s rp)
+      = wr (if task_is_runnable s t then task_reschedule s t else s) rp0
+      /\ Rel (if task_is_runnable s t then task_reschedule s t else s) rp0).
+    { destruct (task_is_runnable s t); [exact (sim_task_reschedule t s rp R)|exists rp; auto]. }
+    destruct H0 as (rp0 & E0 & R0). rewrite E0.
+    apply (sim_prop_rest 0); [|exact R0]. intros fuel' Hf. discriminate Hf.
+  - snorm1. destruct (negb (is_prio_task s t)); [sfin|].
+    assert (H0 : exists rp0,
+      (if task_is_runnable s t then task_reschedule (wr s rp) t else wr s rp)
+      = wr (if task_is_runnable s t then task_reschedule s t else s) rp0
+      /\ Rel (if task_is_runnable s t then task_reschedule s t else s) rp0).
+    { destruct (task_is_runnable s t); [exact (sim_task_reschedule t s rp R)|exists rp; auto]. }
+    destruct H0 as (rp0 & E0 & R0). rewrite E0.
+    apply (sim_prop_rest (S fuel)); [|exact R0]. intros fuel' Hf. injection Hf as <-. exact IH.
 Qed.
 
 Lemma sim_propagate_priority t : SimS (fun s => propagate_priority s t).
